@@ -119,6 +119,20 @@ let run_array toks =
            add (" L" ^ zs (vlen v !s)) end)
          (* "c": the history continues on a clone of the iterator - in the model a state is a value, its copy is itself *)
          (List.filter (fun op -> op <> "c") (S.split_on_char ',' ops)))
+  (* count / last / for_each on the axis iterator after k calls of next: the views still to come *)
+  | ["axisfold"; sh; a; k; what] ->
+    let x = ramp (parse_list sh) and a = ZA.of_string a in
+    let i = ref ZA.zero in
+    for _ = 1 to int_of_string k do
+      let (i', _) = axis_next x a !i in i := i'
+    done;
+    let rec rest st acc = (match axis_next x a st with (st', Some v) -> rest st' (v :: acc) | (_, None) -> List.rev acc) in
+    let views = rest !i [] in
+    let items v = let l = view_items v in if l = [] then "-" else S.concat ";" (List.map zs l) in
+    (match what with
+     | "count" -> add ("C" ^ string_of_int (List.length views))
+     | "last" -> (match List.rev views with v :: _ -> add ("V" ^ items v) | [] -> add "N")
+     | _ -> add ("F" ^ (if views = [] then "none" else S.concat "|" (List.map items views))))
   (* View::to_array: the model's [view_to_array], then [get] at every index of the copy and the copy's own views *)
   | ["toarray"; sh; a; i] ->
     (match get_axis (ramp (parse_list sh)) (ZA.of_string a) (ZA.of_string i) with
@@ -128,6 +142,7 @@ let run_array toks =
        add ("S" ^ fmt_list c.ashape ^ " D" ^ S.concat ";" (List.map zs c.adata));
        add (" G" ^ S.concat ";" (List.map (fun idx -> match get c idx with Some x -> zs x | None -> "N") (indices c.ashape)));
        List.iteri (fun b len ->
+           if ZA.equal len ZA.zero then add " A0" else
            match get_axis c (ZA.of_int b) (ZA.pred len) with
            | Some w -> let items = view_items w in add (" A" ^ (if items = [] then "-" else S.concat ";" (List.map zs items)))
            | None -> add " AN") c.ashape)
@@ -408,7 +423,7 @@ let run_case line =
   | [] -> ()
   | op :: _ ->
     (match op with
-     | "get" | "getmut" | "getaxis" | "view" | "axisiter" | "indices" | "indiceshist" | "viewhist" | "toarray" | "sum" -> run_array toks
+     | "get" | "getmut" | "getaxis" | "view" | "axisiter" | "indices" | "indiceshist" | "viewhist" | "toarray" | "axisfold" | "sum" -> run_array toks
      | "fold" | "marg" | "keep" | "project" | "pmf" | "binom" -> run_spectrum toks
      | "npyw" | "npyr" | "textw" | "read" | "fmt" | "parse" | "detect" -> run_bytes toks
      | "classify" | "sites" | "create" | "smapfile" | "genosm" | "genosv" -> run_create toks
